@@ -576,6 +576,7 @@ pub fn race_child_main() -> i32 {
                 tags: vec![],
                 container: None,
                 handler: false,
+                handler_panic_at: None,
             })))
         })
         .collect();
